@@ -228,7 +228,8 @@ pub fn parse_file(
     Ok(context.as_parse_result())
 }
 
-pub fn parse_file_internal(context: &ParseContext) -> Result<(), Error> {
+/// Parse file, returns skipping of conditional which isn't finished at the end of the file
+pub fn parse_file_internal(context: &ParseContext) -> Result<Option<NextItem>, Error> {
     if context.include_depth > MAX_INCLUDE_DEPTH {
         bail!(
             "Cannot read file {} because includes are recursive or nested too deep",
@@ -308,7 +309,7 @@ pub fn parse_file_internal(context: &ParseContext) -> Result<(), Error> {
         messages,
     };
 
-    parse(source.as_str(), &inner_context)?;
+    let unfinished = parse_unfinished(source.as_str(), &inner_context)?;
 
     // paths added by .includepath of this file stay known to the caller
     context
@@ -316,7 +317,7 @@ pub fn parse_file_internal(context: &ParseContext) -> Result<(), Error> {
         .borrow_mut()
         .extend(inner_context.include_paths.borrow().iter().cloned());
 
-    Ok(())
+    Ok(unfinished)
 }
 
 /// How deep files may include other files
@@ -397,6 +398,11 @@ pub enum NextItem {
     EndIfBlock,
     EndMacro,
     EndFile,
+    /// Skipping of conditional which wasn't finished at the end of included file,
+    /// goes on in the including file: `EndIf` / `EndIfBlock` inside of given count
+    /// of nested conditionals
+    EndIfNested(usize),
+    EndIfBlockNested(usize),
 }
 
 /// Directive of line which can't be parsed: conditionals and definitions of macros
@@ -441,9 +447,16 @@ fn skip<'a>(
     iter: &mut dyn Iterator<Item = (usize, &'a str)>,
     context: &ParseContext,
     ni: NextItem,
-) -> (Option<(usize, &'a str)>, bool) {
-    let mut scoup_count = 0;
+) -> (Option<(usize, &'a str)>, bool, Option<NextItem>) {
+    let (ni, mut scoup_count) = match ni {
+        NextItem::EndIfNested(count) => (NextItem::EndIf, count),
+        NextItem::EndIfBlockNested(count) => (NextItem::EndIfBlock, count),
+        other => (other, 0),
+    };
     let mut pending_elif = false;
+    // skipping which isn't finished when lines are over
+    let mut unfinished = None;
+    let mut finished = false;
     let ret = match ni {
         NextItem::NewLine => iter.next(),
         NextItem::EndFile => None,
@@ -511,6 +524,7 @@ fn skip<'a>(
                                         } else {
                                             iter.next()
                                         };
+                                        finished = true;
                                         break;
                                     } else {
                                         if directive == Directive::Endif {
@@ -523,27 +537,47 @@ fn skip<'a>(
                     }
                 }
             }
+            if !finished {
+                unfinished = match other {
+                    NextItem::EndIf => Some(NextItem::EndIfNested(scoup_count)),
+                    NextItem::EndIfBlock => Some(NextItem::EndIfBlockNested(scoup_count)),
+                    _ => None,
+                };
+            }
             ret
         }
     };
 
-    (ret, pending_elif)
+    (ret, pending_elif, unfinished)
 }
 
 pub fn parse(input: &str, context: &ParseContext) -> Result<(), Error> {
+    parse_unfinished(input, context).map(|_| ())
+}
+
+/// Parse text, returns skipping of conditional which isn't finished at the end of the text
+pub fn parse_unfinished(input: &str, context: &ParseContext) -> Result<Option<NextItem>, Error> {
     let mut lines = input.lines().enumerate();
 
-    parse_iter(&mut lines, context)
+    parse_lines(&mut lines, context)
 }
 
 pub fn parse_iter<'a>(
     iter: &mut dyn Iterator<Item = (usize, &'a str)>,
     context: &ParseContext,
 ) -> Result<(), Error> {
+    parse_lines(iter, context).map(|_| ())
+}
+
+fn parse_lines<'a>(
+    iter: &mut dyn Iterator<Item = (usize, &'a str)>,
+    context: &ParseContext,
+) -> Result<Option<NextItem>, Error> {
     let mut next_item = NextItem::NewLine;
+    let unfinished_skip;
 
     loop {
-        let (next_line, pending_elif) = skip(iter, context, next_item);
+        let (next_line, pending_elif, unfinished) = skip(iter, context, next_item);
         if let Some((line_num, line)) = next_line {
             next_item = NextItem::NewLine; // clear conditional flag to typical state
             let line_num = line_num + 1;
@@ -601,11 +635,12 @@ pub fn parse_iter<'a>(
                 );
             }
         } else {
+            unfinished_skip = unfinished;
             break;
         }
     }
 
-    Ok(())
+    Ok(unfinished_skip)
 }
 
 #[cfg(test)]
